@@ -14,11 +14,11 @@ CVC5_TIMEOUT_S = int(os.environ.get("PV_CVC5_TIMEOUT_S", "20"))
 CVC5 = "/usr/bin/cvc5"
 
 
-def to_smt2(ob):
+def to_smt2(ob, hyps=None):
     s = z3.Solver()
-    for a in getattr(ob, "axioms", []):
-        s.add(a)
-    for h in ob.hyps:
+    if hyps is None:
+        hyps = list(getattr(ob, "axioms", [])) + list(ob.hyps)
+    for h in hyps:
         s.add(h)
     if ob.expect == "valid":
         s.add(z3.Not(ob.goal))
@@ -27,11 +27,93 @@ def to_smt2(ob):
     return s.to_smt2()
 
 
-def _z3_check(text, timeout_ms):
+# --------------------------------------------------------------------------- premise selection (SInE-style)
+
+
+def _symbols(e, cache):
+    key = e.get_id()
+    if key in cache:
+        return cache[key]
+    out = set()
+    stack = [e]
+    seen = set()
+    while stack:
+        x = stack.pop()
+        i = x.get_id()
+        if i in seen:
+            continue
+        seen.add(i)
+        if z3.is_quantifier(x):
+            stack.append(x.body())
+        elif z3.is_app(x):
+            if x.decl().kind() == z3.Z3_OP_UNINTERPRETED:
+                out.add(x.decl().name())
+            stack.extend(x.children())
+    cache[key] = out
+    return out
+
+
+def _has_quantifier(e):
+    stack, seen = [e], set()
+    while stack:
+        x = stack.pop()
+        if x.get_id() in seen:
+            continue
+        seen.add(x.get_id())
+        if z3.is_quantifier(x):
+            return True
+        if z3.is_app(x):
+            stack.extend(x.children())
+    return False
+
+
+def select_premises(ob, depth=3, tolerance=1.2, seed_ground=True):
+    """Sound premise selection: all ground hypotheses, plus the quantified ones reachable from the
+    goal through their *rarest* symbols (SInE).  Proving the goal from a subset of the hypotheses
+    proves it from all of them."""
+    cache = {}
+    hyps = list(getattr(ob, "axioms", [])) + list(ob.hyps)
+    flat = []
+    for h in hyps:
+        flat += list(h.children()) if z3.is_and(h) else [h]
+    quant = [h for h in flat if _has_quantifier(h)]
+    ground = [h for h in flat if not _has_quantifier(h)]
+    occ = {}
+    for h in quant:
+        for sy in _symbols(h, cache):
+            occ[sy] = occ.get(sy, 0) + 1
+    trig = {}
+    for h in quant:
+        sy = _symbols(h, cache)
+        if not sy:
+            trig[h.get_id()] = set()
+            continue
+        m = min(occ[x] for x in sy)
+        trig[h.get_id()] = {x for x in sy if occ[x] <= tolerance * m}
+    relevant = set(_symbols(ob.goal, cache))
+    if seed_ground:
+        for g in ground:
+            relevant |= _symbols(g, cache) if len(str(g)) < 400 else set()
+    chosen = []
+    chosen_ids = set()
+    for _ in range(depth):
+        new = [h for h in quant if h.get_id() not in chosen_ids and (trig[h.get_id()] & relevant)]
+        if not new:
+            break
+        for h in new:
+            chosen.append(h)
+            chosen_ids.add(h.get_id())
+            relevant |= _symbols(h, cache)
+    return ground + chosen, len(quant), len(chosen)
+
+
+def _z3_check(text, timeout_ms, opts=None):
     try:
         ctx = z3.Context()
         s = z3.Solver(ctx=ctx)
         s.set("timeout", timeout_ms)
+        for k, v in (opts or {}).items():
+            s.set(k, v)
         s.from_string(text)
         r = str(s.check())
         return r, (s.reason_unknown() if r == "unknown" else "")
@@ -41,12 +123,40 @@ def _z3_check(text, timeout_ms):
 
 def _solve_text(args):
     """z3 with a short budget, then cvc5, then z3 with the full budget."""
-    name, text, expect, timeout_ms, use_cvc5 = args
+    name, text, expect, timeout_ms, use_cvc5 = args[:5]
+    subsets = args[5] if len(args) > 5 else []
     t0 = time.time()
-    first = min(timeout_ms, 4000)
+    first = min(timeout_ms, 6000)
+    LIN = {"smt.mbqi": False, "smt.arith.nl": False}
+    EM = {"smt.mbqi": False}
+    # Restricted configurations: E-matching only (EM), and additionally nonlinear products treated
+    # syntactically (LIN).  Their `unsat` is sound; their `sat`/`unknown` is never used.  Premise-selected
+    # sub-problems likewise: proving the goal from a subset of the hypotheses proves it from all.
+    if expect != "valid":  # vacuity (cover) checks: a model is wanted, only the full configuration counts
+        r, reason = _z3_check(text, timeout_ms)
+        return name, r, "z3", time.time() - t0, reason
+    r1, _ = _z3_check(text, 2500, LIN)
+    if r1 == "unsat":
+        return name, r1, "z3-lin", time.time() - t0, ""
+    if expect == "valid":
+        for tag, sub in subsets:
+            r1, _ = _z3_check(sub, 5000, EM)
+            if r1 == "unsat":
+                return name, r1, f"z3-{tag}", time.time() - t0, ""
+    r1, _ = _z3_check(text, first, EM)
+    if r1 == "unsat":
+        return name, r1, "z3-ematch", time.time() - t0, ""
     r, reason = _z3_check(text, first)
     if r in ("sat", "unsat"):
         return name, r, "z3", time.time() - t0, reason
+    if expect == "valid":
+        for tag, sub in subsets:
+            r1, _ = _z3_check(sub, 5000, LIN)
+            if r1 == "unsat":
+                return name, r1, f"z3-{tag}-lin", time.time() - t0, ""
+    r1, _ = _z3_check(text, 3 * first, LIN)
+    if r1 == "unsat":
+        return name, r1, "z3-lin", time.time() - t0, ""
     if use_cvc5:
         r2, reason2 = run_cvc5(text)
         if r2 in ("sat", "unsat"):
@@ -94,25 +204,76 @@ def classify(expect, raw):
     return {"sat": "proved", "unsat": "failed"}.get(raw, "unknown")
 
 
+def _job_main(conn, job):
+    try:
+        conn.send(_solve_text(job))
+    except BaseException as e:  # noqa: BLE001
+        conn.send((job[0], "error", "z3", 0.0, f"{type(e).__name__}: {e}"))
+    finally:
+        conn.close()
+
+
+def run_jobs(jobs, workers, hard_factor=3.0):
+    """One process per job (so that a solver that ignores its timeout can be killed)."""
+    ctx = mp.get_context("fork")
+    pending = list(reversed(jobs))
+    running = {}  # name -> (proc, conn, start, hard limit)
+    results = []
+    while pending or running:
+        while pending and len(running) < workers:
+            job = pending.pop()
+            parent, child = ctx.Pipe(duplex=False)
+            p = ctx.Process(target=_job_main, args=(child, job), daemon=True)
+            p.start()
+            child.close()
+            hard = (6 * min(job[3], 6000) + job[3] + 10000 * (len(job[5]) if len(job) > 5 else 0)) / 1000.0 * 1.5 + (CVC5_TIMEOUT_S + 6 if job[4] else 0) + 5
+            running[job[0]] = (p, parent, time.time(), hard)
+        done = []
+        for name, (p, conn, t0, hard) in running.items():
+            if conn.poll(0):
+                try:
+                    results.append(conn.recv())
+                except EOFError:
+                    results.append((name, "error", "z3", time.time() - t0, "worker died"))
+                done.append(name)
+            elif not p.is_alive():
+                results.append((name, "error", "z3", time.time() - t0, "worker died"))
+                done.append(name)
+            elif time.time() - t0 > hard:
+                p.kill()
+                results.append((name, "unknown", "z3", time.time() - t0, "hard wall-clock limit (solver ignored its timeout)"))
+                done.append(name)
+        for name in done:
+            p, conn, _, _ = running.pop(name)
+            conn.close()
+            p.join(timeout=1)
+        if not done:
+            time.sleep(0.005)
+    return results
+
+
 def solve_all(obligations, workers=None, timeout_ms=None, use_cvc5=True):
     workers = workers or min(16, os.cpu_count() or 4)
     timeout_ms = timeout_ms or Z3_TIMEOUT_MS
     jobs = []
     for ob in obligations:
-        jobs.append((ob.name, to_smt2(ob), ob.expect, timeout_ms, use_cvc5))
+        subsets = []
+        if ob.expect == "valid" and len(ob.hyps) > 12:
+            seen_sizes = set()
+            for depth, tol, seed in ((1, 1.0, False), (2, 1.0, False), (1, 1.0, True), (3, 1.2, False), (3, 1.2, True)):
+                try:
+                    sel, nq, nsel = select_premises(ob, depth, tol, seed)
+                except Exception:  # noqa: BLE001
+                    continue
+                if nsel >= nq or nsel in seen_sizes:
+                    continue
+                seen_sizes.add(nsel)
+                subsets.append((f"sel{depth}{'g' if seed else ''}", to_smt2(ob, sel)))
+        jobs.append((ob.name, to_smt2(ob), ob.expect, timeout_ms, use_cvc5, subsets))
     verdicts = {}
     if not jobs:
         return verdicts
-    if workers <= 1 or len(jobs) == 1:
-        results = map(_solve_text, jobs)
-    else:
-        ctx = mp.get_context("fork")
-        pool = ctx.Pool(min(workers, len(jobs)))
-        try:
-            results = pool.map(_solve_text, jobs, chunksize=1)
-        finally:
-            pool.close()
-            pool.join()
+    results = run_jobs(jobs, workers)
     bym = {ob.name: ob for ob in obligations}
     for name, raw, backend, t, reason in results:
         verdicts[name] = Verdict(name, classify(bym[name].expect, raw), backend, t, raw, reason)
